@@ -6,7 +6,7 @@
 From Coq Require Import List NArith Bool String.
 From Verif Require Import lib.Json gen.MigrationTable gen.AssertSites model.Migrate model.MigrateValid model.MigrateSites
   proofs.MigrateProofs proofs.MigrateValidProofs proofs.MigrateStepwiseProofs proofs.MigrateRewriteProofs proofs.MigrateFrameProofs proofs.MigrateFullProofs
-  proofs.MigrateCensusProofs proofs.MigrateSitesProofs.
+  proofs.MigrateCensusProofs proofs.MigrateOrphanProofs proofs.MigrateSitesProofs.
 Import ListNotations.
 
 (* a definition already at the current version (or newer) is returned untouched: the very input, no UUID drawn *)
@@ -109,13 +109,35 @@ Print Assumptions c16_frame.
    only if two catalogue paths of one action reached the same text).  `localization` is excepted because translations of
    catalogued members are re-written as arrays of texts (a non-text element becomes ""), as the Go code does.
    Missing for the full statement: (i) that refactor.Template's output evaluates like its input with @webhook read as
-   @webhook.json is property C11's subject, not modelled here; (ii) that the catalogue reaches every template position
-   (it does not reach translations of a member the base object lacks: known finding) is checked on the implementation
-   by the direct oracle (every text of nodes and localization evaluated before and after the step to 13.3). *)
+   @webhook.json is property C11's subject, not modelled here; (ii) that the catalogue lists every template position is a
+   fact about goflow's data, checked for routers and waits by c16_catalog_covers_router_templates and on the
+   implementation by the direct oracle (every text of nodes and localization evaluated before and after the step to 13.3);
+   what happens to `localization` is the subject of c16_translations_rewritten_once. *)
 Theorem c16_templates_preserved_partial : forall tx fresh f k,
   k <> k_localization -> orel tx (olookup k f) (olookup k (fst (migrate_13_3 tx fresh f))).
 Proof. exact migrate_13_3_parametric. Qed.
 Print Assumptions c16_templates_preserved_partial.
+
+(* translations (repair 9753d74): on a catalogue path that names a member m of the action / router itself, Migrate13_3
+   rewrites the translations of (uuid of the object, m) exactly once -- the localization afterwards is
+   rewrite_translations applied once, whether the object has m in the base language (then the transform reaches them and
+   the step for unreachable translations stays away) or not (then only that step does); and rewriting once means: in every
+   language the translation of (uuid, m) is the old one with tx applied to each text (c16_translation_rewritten).
+   Hypotheses: the path parses to the single step m and splits at its last dot into ("", m) (true of e.g.
+   ".quick_replies[*]", Example rewritten_once_applies), m is not `*` or `uuid`, the object has a uuid and unique keys. *)
+Theorem c16_translations_rewritten_once : forall tx p m loc o,
+  steps_of p = Some [m] ->
+  split_last_dot (trim_suffix star_suffix (s p)) = Some ([], m) ->
+  str_eqb m star = false -> str_eqb m k_uuid = false -> nonempty m = true ->
+  nonempty (object_uuid o) = true -> NoDup (map fst o) ->
+  fst (rewrite_path tx loc o p) = option_map (rewrite_translations tx (object_uuid o) m) loc.
+Proof. exact translations_rewritten_once. Qed.
+Print Assumptions c16_translations_rewritten_once.
+
+Theorem c16_translation_rewritten : forall tx uuid prop lt,
+  get_translation uuid prop (rewrite_language tx uuid prop lt) = option_map (map tx) (get_translation uuid prop lt).
+Proof. exact rewrite_language_get. Qed.
+Print Assumptions c16_translation_rewritten.
 
 (* with the identity in place of tx nothing but `localization` changes at all *)
 Theorem c16_13_3_identity : forall fresh f k,
